@@ -183,7 +183,7 @@ Theorem C09_spellings : forall k, nice k = true ->
   LexSpec.Lexeme k (show_kind k) /\
   (show_kind k = spelling k \/
    exists v a, k = HexT (IntOk v) /\ spelling k = [48; 120; a] /\ show_kind k = [48; 120; 48; a]).
-Proof. intros k H. split; [apply show_lexeme; exact H | apply show_vs_spelling; exact H]. Qed.
+Proof. exact spellings. Qed.
 Print Assumptions C09_spellings.
 
 Theorem C09_tokens : forall p toks f txt,
@@ -256,4 +256,169 @@ Proof.
   - vm_compute. reflexivity.
   - rewrite map_map. apply map_id.
   - vm_compute. reflexivity.
+Qed.
+
+(* ================================================================================================
+   5. Part (A) with comments in LEADING position - PROVED (this is also the comment half of C10 for these gaps)
+
+   [lead_only p]: the only non-empty comment slots of p are the ones in front of `type` / `proc` (doc comments), in front of
+   `var`, in front of a parameter, and in front of the first token of a statement - except in front of the `{` of a block that
+   is the branch of an if / while (fmt_branch drops those: known findings C10-gap-lead:block@then|else|loop).  For such programs
+   the printer returns the printed forms of ALL tokens of the program, comments included, in the original order: every comment
+   with text s is emitted exactly once, as the line "// " + trim s + LF ([show_kind (Comment s)]), and the text lexes to the same
+   tokens, a comment with text s becoming the comment with text " " + trim s ([canon]).
+   Not covered: comments inside assignments / calls / parameters / variable declarations (the printer moves them in front of the
+   construct, so the token ORDER changes) and the gaps where the printer loses the comment (C10). *)
+From Spl Require Import Proofs.FormatStructExpr Proofs.FormatStructStmt.
+
+Example C09_lead_only_unfold :
+  (forall p, lead_only p = forallb lo_decl (a_decls p) && is_nil (a_ceof p))
+  /\ (forall c1 c2 x c3 t c4, lo_decl (DType c1 c2 x c3 t c4) =
+        forallb nice (KType :: cm c2 ++ Ident x :: cm c3 ++ EqT :: fl_type t ++ cm c4 ++ [Semic]))
+  /\ (forall c1 c2 x c3 ps c4 c5 vs b c6, lo_decl (DProc c1 c2 x c3 ps c4 c5 vs b c6) =
+        forallb nice (KProc :: cm c2 ++ Ident x :: cm c3 ++ [LParen]) && lo_params ps && is_nil c4 && is_nil c5
+        && forallb lo_vardecl vs && lo_stmts b && is_nil c6)
+  /\ (forall c x cc t, lo_param (PVal c x cc t) = forallb nice (Ident x :: cm cc ++ Colon :: fl_type t))
+  /\ (forall v, lo_vardecl v =
+        forallb nice (KVar :: cm (v_c2 v) ++ Ident (v_x v) :: cm (v_c3 v) ++ Colon :: fl_type (v_t v) ++ cm (v_c4 v) ++ [Semic]))
+  /\ (forall c, lo_stmt (SEmp c) = true)
+  /\ (forall v c1 e c2, lo_stmt (SAsg v c1 e c2) = forallb nice (var_code v ++ cm c1 ++ Assign :: fl_cmp e ++ cm c2 ++ [Semic]))
+  /\ (forall c1 c2 e c3 t, lo_stmt (SIfT c1 c2 e c3 t) =
+        forallb nice (KIf :: cm c2 ++ LParen :: fl_cmp e ++ cm c3 ++ [RParen]) && lo_branch t)
+  /\ (forall t, lo_branch t = match t with SBlk c1 b c2 => is_nil c1 && is_nil c2 && lo_stmts b | _ => lo_stmt t end)
+  /\ (forall c1 b c2, lo_stmt (SBlk c1 b c2) = lo_stmts b && is_nil c2)
+  /\ (forall s, canon (Comment s) = Comment (32 :: trim s)) /\ canon KIf = KIf /\ (forall x, canon (Ident x) = Ident x)
+  /\ (forall s, show_kind (Comment s) = [47; 47; 32] ++ trim s ++ [10]).
+Proof. repeat split; reflexivity. Qed.
+
+Theorem C09_structure_lead : forall p toks f,
+  (ind_sym f = 32 \/ ind_sym f = 9) -> lead_only p = true -> aprog_valid p = true ->
+  map tk toks = flatten p ++ [Eof] ->
+  exists txt gaps,
+    fmt_program f (expected p) toks = FOk txt /\
+    txt = weave gaps (map show_kind (flatten p)) /\
+    gaps_ok (flatten p) gaps /\
+    Forall (fun g => forallb is_ws g = true) gaps /\
+    hd [] gaps = [] /\ (flatten p <> [] -> last gaps [] = [10]).
+Proof. exact structure_lead. Qed.
+Print Assumptions C09_structure_lead.
+
+Theorem C09_tokens_lead : forall p toks f txt,
+  (ind_sym f = 32 \/ ind_sym f = 9) -> lead_only p = true -> aprog_valid p = true ->
+  map tk toks = flatten p ++ [Eof] ->
+  fmt_program f (expected p) toks = FOk txt ->
+  exists toks', lex txt = Some toks' /\ map tk toks' = map canon (flatten p) ++ [Eof] /\ Forall (fun t => terr t = []) toks'.
+Proof. exact tokens_lead. Qed.
+Print Assumptions C09_tokens_lead.
+
+(* every comment-free program is a lead_only program *)
+Theorem C09_comment_free_lead_only : forall p, comment_free p = true -> aprog_valid p = true -> lead_only p = true.
+Proof. exact comment_free_lead_only. Qed.
+Print Assumptions C09_comment_free_lead_only.
+
+(* //  doc t <CR>
+   type t = int;
+   //d1
+   // d2
+   proc f(// pa
+          a: int, ref b: t) {
+     // dv
+     var x: int;
+     //s1
+     x[0] := 1;
+     // s2
+     if (a) // s3
+       f(a, b);
+     else // s4
+       if (b) { //s5
+         ; } else //s6
+         while (a) {} } *)
+Definition c09_cprog : aprog :=
+  {| a_decls :=
+       [DType [str "  doc t " ++ [13]] [] (str "t") [] c09_int [];
+        DProc [str "d1"; str " d2"] [] (str "f") []
+          (Some (PVal [str " pa"] (str "a") [] c09_int, [([], PRef [] [] (str "b") [] (TName [] (str "t")))])) [] []
+          [{| v_c1 := [str " dv"]; v_c2 := []; v_x := str "x"; v_c3 := []; v_t := c09_int; v_c4 := [] |}]
+          (SCons (SAsg (AIndex (AName [str "s1"] (str "x")) [] (c09_f (FLit [] (LDec 0))) []) [] (c09_f (FLit [] (LDec 1))) [])
+          (SCons (SIfE [str " s2"] [] (c09_f (FVar (c09_v "a"))) []
+                    (SCal [str " s3"] (str "f") [] (Some (c09_f (FVar (c09_v "a")), [([], c09_f (FVar (c09_v "b")))])) [] []) []
+                    (SIfE [str " s4"] [] (c09_f (FVar (c09_v "b"))) []
+                       (SBlk [] (SCons (SEmp [str "s5"]) SNil) []) []
+                       (SWhl [str "s6"] [] (c09_f (FVar (c09_v "a"))) [] (SBlk [] SNil []))))
+           SNil)) []];
+     a_ceof := [] |}.
+
+Definition c09_cout : text :=
+  str "// doc t" ++ [10] ++ str "type t = int;" ++ [10; 10]
+  ++ str "// d1" ++ [10] ++ str "// d2" ++ [10] ++ str "proc f(" ++ [10] ++ str "  // pa" ++ [10] ++ str "  a: int," ++ [10]
+  ++ str "  ref b: t" ++ [10] ++ str ") {" ++ [10]
+  ++ str "  // dv" ++ [10] ++ str "  var x: int;" ++ [10; 10]
+  ++ str "  // s1" ++ [10] ++ str "  x[0] := 1;" ++ [10]
+  ++ str "  // s2" ++ [10] ++ str "  if (a)" ++ [10] ++ str "    // s3" ++ [10] ++ str "    f(a, b);" ++ [10]
+  ++ str "  else // s4" ++ [10] ++ str "  if (b) {" ++ [10] ++ str "    // s5" ++ [10] ++ str "    ;" ++ [10]
+  ++ str "  } else" ++ [10] ++ str "    // s6" ++ [10] ++ str "    while (a) {}" ++ [10] ++ str "}" ++ [10].
+
+Example C09_structure_lead_ex :
+  lead_only c09_cprog = true /\ aprog_valid c09_cprog = true /\ prog_ok c09_cprog = true /\ comment_free c09_cprog = false
+  /\ fmt_program (options_of true 2) (expected c09_cprog) (map c09_mk (flatten c09_cprog ++ [Eof])) = FOk c09_cout
+  /\ match lex c09_cout with
+     | Some toks' => map tk toks' = map canon (flatten c09_cprog) ++ [Eof]
+     | None => False
+     end
+  /\ length (filter (fun k => match k with Comment _ => true | _ => false end) (flatten c09_cprog)) = 11%nat
+  (* not lead_only: a comment in front of a block that is a branch, a comment in front of a closing brace *)
+  /\ lead_only {| a_decls := [DProc [] [] (str "f") [] None [] [] []
+                               (SCons (SWhl [] [] (c09_f (FVar (c09_v "a"))) [] (SBlk [str "c"] SNil [])) SNil) []]; a_ceof := [] |} = false
+  /\ lead_only {| a_decls := [DProc [] [] (str "f") [] None [] [] [] SNil [str "c"]]; a_ceof := [] |} = false.
+Proof. vm_compute. repeat split; reflexivity. Qed.
+
+(* from a document: every text that lexes to the tokens of a valid program with comments in leading position only is
+   formatted to a text with the same non-comment tokens AND the same comments (trimmed texts, in order, each exactly once).
+   This is [C09_full_statement]'s token half and the conclusion of [C10_statement] (Proofs/FormatProofs.v) for these documents. *)
+Example C09_code_comment_unfold :
+  (forall toks, code_kinds toks = filter (fun k => match k with Comment _ => false | _ => true end) (map tk toks))
+  /\ (forall toks, comment_bodies toks = flat_map (fun t => match tk t with Comment s => [trim s] | _ => [] end) toks).
+Proof. split; reflexivity. Qed.
+
+Theorem C09_document_lead : forall p doc toks ins ts,
+  prog_ok p = true -> lead_only p = true -> aprog_valid p = true ->
+  lex doc = Some toks -> map tk toks = flatten p ++ [Eof] ->
+  exists txt toks',
+    formatted_text doc ins ts = Done txt /\ lex txt = Some toks' /\
+    code_kinds toks' = code_kinds toks /\ comment_bodies toks' = comment_bodies toks /\
+    Forall (fun t => terr t = []) toks'.
+Proof. exact document_lead. Qed.
+Print Assumptions C09_document_lead.
+
+(* a messy layout of c09_cprog *)
+Definition c09_cdoc : text :=
+  str "//  doc t " ++ [13; 10] ++ str "type t=int;//d1" ++ [10] ++ str "// d2" ++ [10] ++ str "proc f(// pa" ++ [10]
+  ++ str "a:int,ref b:t){// dv" ++ [10] ++ str "var x:int;//s1" ++ [10] ++ str "x[0]:=1;// s2" ++ [10] ++ str "if(a)// s3" ++ [10]
+  ++ str "f(a,b);else// s4" ++ [10] ++ str "if(b){//s5" ++ [10] ++ str ";}else//s6" ++ [10] ++ str "while(a){}}".
+
+Example C09_document_lead_ex :
+  match lex c09_cdoc with Some toks => map tk toks = flatten c09_cprog ++ [Eof] | None => False end
+  /\ formatted_text c09_cdoc true 2 = Done c09_cout
+  /\ match lex c09_cdoc, lex c09_cout with
+     | Some toks, Some toks' =>
+         comment_bodies toks' = comment_bodies toks
+         /\ comment_bodies toks = [str "doc t"; str "d1"; str "d2"; str "pa"; str "dv"; str "s1"; str "s2"; str "s3"; str "s4"; str "s5"; str "s6"]
+     | _, _ => False
+     end.
+Proof. vm_compute. repeat split; reflexivity. Qed.
+
+(* ... and the instance obtained THROUGH the theorem, for all option settings *)
+Example C09_document_lead_thm_ex : forall ins ts,
+  exists txt toks', formatted_text c09_cdoc ins ts = Done txt /\ lex txt = Some toks' /\
+    comment_bodies toks' = [str "doc t"; str "d1"; str "d2"; str "pa"; str "dv"; str "s1"; str "s2"; str "s3"; str "s4"; str "s5"; str "s6"].
+Proof.
+  intros ins ts. destruct (lex c09_cdoc) as [toks|] eqn:El; [|vm_compute in El; discriminate].
+  assert (H1 : prog_ok c09_cprog = true) by (vm_compute; reflexivity).
+  assert (H2 : lead_only c09_cprog = true) by (vm_compute; reflexivity).
+  assert (H3 : aprog_valid c09_cprog = true) by (vm_compute; reflexivity).
+  assert (H5 : map tk toks = flatten c09_cprog ++ [Eof]) by (vm_compute in El; injection El as <-; vm_compute; reflexivity).
+  assert (H6 : comment_bodies toks = [str "doc t"; str "d1"; str "d2"; str "pa"; str "dv"; str "s1"; str "s2"; str "s3"; str "s4"; str "s5"; str "s6"])
+    by (vm_compute in El; injection El as <-; vm_compute; reflexivity).
+  destruct (C09_document_lead c09_cprog c09_cdoc toks ins ts H1 H2 H3 El H5) as (txt & toks' & E1 & E2 & _ & E4 & _).
+  exists txt, toks'. split; [exact E1|]. split; [exact E2|]. rewrite E4. exact H6.
 Qed.
